@@ -77,6 +77,8 @@ func newInterpreter(p *Program, sh *Shared) *interpreter {
 		stepBudget: sh.cfg.StepBudget,
 		funcsSeen:  map[*ssa.Function]int64{},
 		pure:       map[*ssa.Function]bool{},
+		pools:      map[*value][]value{},
+		syncMaps:   map[*value]*omap{},
 		noSummary:  map[*ssa.Function]bool{},
 		setupCache: map[string]value{},
 		fnInfos:    map[*ssa.Function]*fnInfo{},
@@ -124,8 +126,6 @@ func runWorker(p *Program, sh *Shared, entry *ssa.Function, w int) {
 
 func runPath(i *interpreter, ex *explorer, sh *Shared, entry *ssa.Function, it *workItem) {
 	ex.resetPath(it)
-	i.pools = map[*value][]value{}
-	i.syncMaps = map[*value]*omap{}
 	i.strCells = map[uintptr]*strCell{}
 	i.strCellOf = map[*value]string{}
 	i.noSummary = map[*ssa.Function]bool{}
@@ -210,7 +210,7 @@ func (ex *explorer) describePanicValue(x iface) string {
 	}
 	// error or Stringer: call the method through the interpreter
 	for _, m := range []string{"Error", "String"} {
-		if f := ex.i.prog.LookupMethod(x.t, nil, m); f != nil {
+		if f := ex.i.methodOf(x.t, m); f != nil {
 			var out string
 			func() {
 				defer func() {
